@@ -41,19 +41,8 @@ pub trait Write {
             r is Ok ==> final(self).written() == old(self).written() + buf@;
 }
 
-// ---- compression stub -------------------------------------------------------------------------------------------------------------
-// same variants and discriminants as cas_object/src/compression_scheme.rs (`#[repr(u8)]`; Copy)
-#[derive(Clone, Copy)]
-pub enum CompressionScheme { None = 0, LZ4 = 1, ByteGrouping4LZ4 = 2 }
-pub open spec fn scheme_byte(s: CompressionScheme) -> u8 { match s { CompressionScheme::None => 0, CompressionScheme::LZ4 => 1, CompressionScheme::ByteGrouping4LZ4 => 2 } }
-pub open spec fn scheme_of_byte(b: u8) -> Option<CompressionScheme> {
-    if b == 0 { Some(CompressionScheme::None) } else if b == 1 { Some(CompressionScheme::LZ4) } else if b == 2 { Some(CompressionScheme::ByteGrouping4LZ4) } else { None }
-}
-pub uninterp spec fn compress_spec(s: CompressionScheme, c: Seq<u8>) -> Seq<u8>;
-pub uninterp spec fn decode_compressed(s: CompressionScheme, x: Seq<u8>) -> Seq<u8>;
-// what a decoder returns for payload x under scheme s: scheme `None` is the identity (compression_scheme.rs:72)
-pub open spec fn decode_spec(s: CompressionScheme, x: Seq<u8>) -> Seq<u8> { if s is None { x } else { decode_compressed(s, x) } }
-pub uninterp spec fn spec_choose(c: Seq<u8>) -> CompressionScheme;
+//@ include prelude/xorbidx_codec.rs
+
 impl CompressionScheme {
     // compress_from_slice (lz4 / bg4+lz4 / identity): result is a function of (scheme, data) and -- ASSUMED -- the decoder inverts it
     // (the real function returns Cow<[u8]>; serialize_chunk only takes `.len()`, `&x` and `chunk.into()` of that type)
@@ -71,8 +60,6 @@ fn vx_scheme_or_choose(compression_scheme: Option<CompressionScheme>, chunk: &[u
 pub assume_specification<'a, T: Clone> [<Vec<T> as From<&'a [T]>>::from] (s: &[T]) -> (r: Vec<T>)
     ensures r@ == s@;
 
-// 3-byte little-endian field
-pub open spec fn le3(s: Seq<u8>, o: int) -> nat { (s[o] as nat) + 256 * (s[o + 1] as nat) + 65536 * (s[o + 2] as nat) }
 // copy_three_byte_num (cas_chunk_format.rs:98-102; to_le_bytes + copy_from_slice, K-HDR's subject): its `debug_assert!(num < 2^24)` is the
 // precondition, so every call site carries the obligation
 #[verifier::external_body]
